@@ -468,7 +468,8 @@ pub fn run_once(case: &CaseSpec, prefix: &[usize]) -> RunResult {
       for (i, s) in script.iter().enumerate() {
         wait_turn(false, None);
         record(json!({"k": "call", "th": t, "i": i + 1, "s": s.to_json()}));
-        let gone = if s.k == "unsub" { world2.hnames.lock().unwrap().get((s.a - 1) as usize).cloned() } else { None };
+        let hname = world2.hnames.lock().unwrap().get((s.a.max(1) - 1) as usize).cloned();
+        let gone = if s.k == "unsub" { hname.clone() } else { None };
         CURRENT_CALL.with(|c| *c.borrow_mut() = format!("t{t}c{}", i + 1));
         let r = catch_unwind(AssertUnwindSafe(|| world2.call(s, format!("t{t}c{}", i + 1))));
         match r {
